@@ -139,40 +139,67 @@ Proof.
     intros k. rewrite assoc_app, Hga, Hgb. reflexivity.
 Qed.
 
-(* the run-time lets: good map steps only, and the tables they bind are those of the heap-free evaluation *)
-Lemma ev_binds_abs : forall bs en mh cvm, mwf mh -> Forall2 (sabs mh) (xe_ms en) cvm ->
-  mgood mh (fst (ev_binds en mh bs)) /\ snd (ev_binds en mh bs) = pm_binds en cvm bs.
+(* the run-time lets: good steps only on both heaps, and the tables they bind are those of the heap-free evaluation
+   on the content the lists of lists had in h0 *)
+Lemma ev_binds_abs : forall cp h0 cvm bs en h mh, inv h0 -> good h0 h -> Forall (fun a => a < nobjs h0) (xe_os en) ->
+  mwf mh -> Forall2 (sabs mh) (xe_ms en) cvm ->
+  good h (fst (fst (ev_binds cp en h mh bs))) /\ mgood mh (snd (fst (ev_binds cp en h mh bs))) /\
+  snd (ev_binds cp en h mh bs) = pm_binds en cvm (icontent h0) bs.
 Proof.
-  induction bs as [|b bs IH]; intros en mh cvm Hw HF; cbn [ev_binds pm_binds].
-  - cbn [fst snd]. split; [apply mgood_refl; auto|reflexivity].
-  - destruct b as [m k|m k|m].
-    + destruct (ev_xm_abs m en mh cvm Hw HF) as [G R]. destruct (ev_xm en mh m) as [mh1 r]. cbn [fst snd] in *.
+  intros cp h0 cvm. induction bs as [|b bs IH]; intros en h mh Hinv G Hos Hw HF; cbn [ev_binds pm_binds].
+  - cbn [fst snd]. split; [apply good_refl; apply G|]. split; [apply mgood_refl; auto|reflexivity].
+  - assert (Hih : inv h) by apply G.
+    destruct b as [m k|m k|m|o i|o].
+    + destruct (ev_xm_abs m en mh cvm Hw HF) as [GM R]. destruct (ev_xm en mh m) as [mh1 r]. cbn [fst snd] in *.
       unfold xm_rel in R. destruct r as [s|], (pm_xm en cvm m) as [es|]; try contradiction;
-        [|cbn [fst snd]; split; [exact G|reflexivity]].
+        [|cbn [fst snd]; split; [apply good_refl; auto|split; [exact GM|reflexivity]]].
       pose proof R as (_ & _ & Hg & _). rewrite Hg.
-      destruct (assoc k es) as [z|]; [|cbn [fst snd]; split; [exact G|reflexivity]].
-      destruct (in_scope (xe_cs en) z); [|cbn [fst snd]; split; [exact G|reflexivity]].
-      pose proof G as (Hw1 & _).
-      destruct (IH (mkXE (xe_cs en ++ [Z.to_nat z]) (xe_zs en) (xe_ms en) (xe_args en)) mh1 cvm Hw1
-                   (forall2_sabs_mono _ _ _ _ G HF)) as [G2 E2].
-      split; [eapply mgood_trans; eauto|exact E2].
-    + destruct (ev_xm_abs m en mh cvm Hw HF) as [G R]. destruct (ev_xm en mh m) as [mh1 r]. cbn [fst snd] in *.
+      destruct (assoc k es) as [z|]; [|cbn [fst snd]; split; [apply good_refl; auto|split; [exact GM|reflexivity]]].
+      destruct (in_scope (xe_cs en) z); [|cbn [fst snd]; split; [apply good_refl; auto|split; [exact GM|reflexivity]]].
+      pose proof GM as (Hw1 & _).
+      destruct (IH (mkXE (xe_cs en ++ [Z.to_nat z]) (xe_zs en) (xe_os en) (xe_ms en) (xe_args en)) h mh1 Hinv G Hos Hw1
+                   (forall2_sabs_mono _ _ _ _ GM HF)) as (G2 & GM2 & E2).
+      split; [exact G2|]. split; [eapply mgood_trans; eauto|exact E2].
+    + destruct (ev_xm_abs m en mh cvm Hw HF) as [GM R]. destruct (ev_xm en mh m) as [mh1 r]. cbn [fst snd] in *.
       unfold xm_rel in R. destruct r as [s|], (pm_xm en cvm m) as [es|]; try contradiction;
-        [|cbn [fst snd]; split; [exact G|reflexivity]].
+        [|cbn [fst snd]; split; [apply good_refl; auto|split; [exact GM|reflexivity]]].
       pose proof R as (_ & _ & Hg & _). rewrite Hg.
-      destruct (assoc k es) as [z|]; [|cbn [fst snd]; split; [exact G|reflexivity]].
-      pose proof G as (Hw1 & _).
-      destruct (IH (mkXE (xe_cs en) (xe_zs en ++ [z]) (xe_ms en) (xe_args en)) mh1 cvm Hw1
-                   (forall2_sabs_mono _ _ _ _ G HF)) as [G2 E2].
-      split; [eapply mgood_trans; eauto|exact E2].
-    + destruct (ev_xm_abs m en mh cvm Hw HF) as [G R]. destruct (ev_xm en mh m) as [mh1 r]. cbn [fst snd] in *.
+      destruct (assoc k es) as [z|]; [|cbn [fst snd]; split; [apply good_refl; auto|split; [exact GM|reflexivity]]].
+      pose proof GM as (Hw1 & _).
+      destruct (IH (mkXE (xe_cs en) (xe_zs en ++ [z]) (xe_os en) (xe_ms en) (xe_args en)) h mh1 Hinv G Hos Hw1
+                   (forall2_sabs_mono _ _ _ _ GM HF)) as (G2 & GM2 & E2).
+      split; [exact G2|]. split; [eapply mgood_trans; eauto|exact E2].
+    + destruct (ev_xm_abs m en mh cvm Hw HF) as [GM R]. destruct (ev_xm en mh m) as [mh1 r]. cbn [fst snd] in *.
       unfold xm_rel in R. destruct r as [s|], (pm_xm en cvm m) as [es|]; try contradiction;
-        [|cbn [fst snd]; split; [exact G|reflexivity]].
+        [|cbn [fst snd]; split; [apply good_refl; auto|split; [exact GM|reflexivity]]].
       pose proof R as (_ & _ & _ & Hs). rewrite Hs.
-      pose proof G as (Hw1 & _).
-      destruct (IH (mkXE (xe_cs en) (xe_zs en ++ [Z.of_nat (length es)]) (xe_ms en) (xe_args en)) mh1 cvm Hw1
-                   (forall2_sabs_mono _ _ _ _ G HF)) as [G2 E2].
-      split; [eapply mgood_trans; eauto|exact E2].
+      pose proof GM as (Hw1 & _).
+      destruct (IH (mkXE (xe_cs en) (xe_zs en ++ [Z.of_nat (length es)]) (xe_os en) (xe_ms en) (xe_args en)) h mh1 Hinv G Hos Hw1
+                   (forall2_sabs_mono _ _ _ _ GM HF)) as (G2 & GM2 & E2).
+      split; [exact G2|]. split; [eapply mgood_trans; eauto|exact E2].
+    + destruct (nth_error (xe_os en) o) as [a|] eqn:Eo;
+        [|cbn [fst snd]; split; [apply good_refl; auto|split; [apply mgood_refl; auto|reflexivity]]].
+      assert (Ha : a < nobjs h0) by (rewrite Forall_forall in Hos; apply Hos; eapply nth_error_In; eauto).
+      assert (Hf : func_ok h0 (mkF [a] (xe_zs en) (index_body i))) by (constructor; [exact Ha|constructor]).
+      destruct (outcome_content_only_lemma cp h0 (mkF [a] (xe_zs en) (index_body i)) (xe_args en) 0 Hinv Hf h G) as [A B].
+      unfold oeval. destruct (run_iso h (sc_eval cp (mkF [a] (xe_zs en) (index_body i)) (xe_args en) 0)) as [h1 out].
+      cbn [fst snd] in A, B. unfold func_senv in A. cbn [f_cs f_zs f_body map] in A. unfold val in *. rewrite <- A.
+      destruct out as [|z|xs]; try (cbn [fst snd]; split; [exact B|split; [apply mgood_refl; auto|reflexivity]]).
+      destruct (in_scope (xe_cs en) z); [|cbn [fst snd]; split; [exact B|split; [apply mgood_refl; auto|reflexivity]]].
+      destruct (IH (mkXE (xe_cs en ++ [Z.to_nat z]) (xe_zs en) (xe_os en) (xe_ms en) (xe_args en)) h1 mh Hinv
+                   (good_trans _ _ _ G B) Hos Hw HF) as (G2 & GM2 & E2).
+      split; [eapply good_trans; eauto|]. split; [exact GM2|exact E2].
+    + destruct (nth_error (xe_os en) o) as [a|] eqn:Eo;
+        [|cbn [fst snd]; split; [apply good_refl; auto|split; [apply mgood_refl; auto|reflexivity]]].
+      assert (Ha : a < nobjs h0) by (rewrite Forall_forall in Hos; apply Hos; eapply nth_error_In; eauto).
+      assert (Hf : func_ok h0 (mkF [a] (xe_zs en) osize_body)) by (constructor; [exact Ha|constructor]).
+      destruct (outcome_content_only_lemma cp h0 (mkF [a] (xe_zs en) osize_body) (xe_args en) 0 Hinv Hf h G) as [A B].
+      unfold oeval. destruct (run_iso h (sc_eval cp (mkF [a] (xe_zs en) osize_body) (xe_args en) 0)) as [h1 out].
+      cbn [fst snd] in A, B. unfold func_senv in A. cbn [f_cs f_zs f_body map] in A. unfold val in *. rewrite <- A.
+      destruct out as [|z|xs]; try (cbn [fst snd]; split; [exact B|split; [apply mgood_refl; auto|reflexivity]]).
+      destruct (IH (mkXE (xe_cs en) (xe_zs en ++ [z]) (xe_os en) (xe_ms en) (xe_args en)) h1 mh Hinv
+                   (good_trans _ _ _ G B) Hos Hw HF) as (G2 & GM2 & E2).
+      split; [eapply good_trans; eauto|]. split; [exact GM2|exact E2].
 Qed.
 
 (* the map definitions of Generate: good map steps, and every constant storage is well formed in the resulting heap *)
@@ -187,7 +214,7 @@ Proof.
     unfold xm_rel in R. destruct r as [s|], (pm_xm en cvm d) as [es|]; try contradiction;
       [|cbn [fst snd]; split; [exact G|exact I]].
     pose proof G as (Hw1 & _).
-    destruct (IH (mkXE (xe_cs en) (xe_zs en) (xe_ms en ++ [s]) (xe_args en)) mh1 (cvm ++ [es]) Hw1) as [G2 E2].
+    destruct (IH (mkXE (xe_cs en) (xe_zs en) (xe_os en) (xe_ms en ++ [s]) (xe_args en)) mh1 (cvm ++ [es]) Hw1) as [G2 E2].
     { cbn [xe_ms]. apply Forall2_app; [eapply forall2_sabs_mono; eauto|constructor; [exact R|constructor]]. }
     split; [eapply mgood_trans; eauto|exact E2].
 Qed.
@@ -199,28 +226,59 @@ Proof.
   apply Z.eqb_eq in E. subst z. rewrite Nat2Z.id. exact Ha.
 Qed.
 
-Lemma pm_binds_scope : forall (P : nat -> Prop) bs en cvm cs zs, pm_binds en cvm bs = Some (cs, zs) ->
+Lemma pm_binds_scope : forall (P : nat -> Prop) lc bs en cvm cs zs, pm_binds en cvm lc bs = Some (cs, zs) ->
   Forall P (xe_cs en) -> Forall P cs.
 Proof.
-  intros P. induction bs as [|b bs IH]; intros en cvm cs zs H HP; cbn [pm_binds] in H.
+  intros P lc. induction bs as [|b bs IH]; intros en cvm cs zs H HP; cbn [pm_binds] in H.
   - inversion H. subst. exact HP.
-  - destruct b as [m k|m k|m]; destruct (pm_xm en cvm m) as [es|]; try discriminate.
-    + destruct (assoc k es) as [z|]; [|discriminate]. destruct (in_scope (xe_cs en) z) eqn:Ei; [|discriminate].
+  - destruct b as [m k|m k|m|o i|o].
+    + destruct (pm_xm en cvm m) as [es|]; try discriminate.
+      destruct (assoc k es) as [z|]; [|discriminate]. destruct (in_scope (xe_cs en) z) eqn:Ei; [|discriminate].
       apply (IH _ _ _ _ H). cbn [xe_cs]. apply Forall_app. split; [exact HP|]. constructor; [|constructor].
       rewrite Forall_forall in HP. apply HP. apply in_scope_in. exact Ei.
-    + destruct (assoc k es) as [z|]; [|discriminate]. apply (IH _ _ _ _ H). exact HP.
-    + apply (IH _ _ _ _ H). exact HP.
+    + destruct (pm_xm en cvm m) as [es|]; try discriminate.
+      destruct (assoc k es) as [z|]; [|discriminate]. apply (IH _ _ _ _ H). exact HP.
+    + destruct (pm_xm en cvm m) as [es|]; try discriminate. apply (IH _ _ _ _ H). exact HP.
+    + destruct (nth_error (xe_os en) o) as [a|]; [|discriminate].
+      destruct (sp_body _ (index_body i) 0) as [|z|xs]; try discriminate.
+      destruct (in_scope (xe_cs en) z) eqn:Ei; [|discriminate].
+      apply (IH _ _ _ _ H). cbn [xe_cs]. apply Forall_app. split; [exact HP|]. constructor; [|constructor].
+      rewrite Forall_forall in HP. apply HP. apply in_scope_in. exact Ei.
+    + destruct (nth_error (xe_os en) o) as [a|]; [|discriminate].
+      destruct (sp_body _ osize_body 0) as [|z|xs]; try discriminate.
+      apply (IH _ _ _ _ H). exact HP.
+Qed.
+
+(* the lists of lists of Generate: good steps (a fresh literal each), and the new objects exist *)
+Lemma ev_odefs_ok : forall cs ods h os, inv h -> Forall (fun a => a < nobjs h) os ->
+  good h (fst (ev_odefs cs h ods os)) /\
+  match snd (ev_odefs cs h ods os) with
+  | Some os' => Forall (fun a => a < nobjs (fst (ev_odefs cs h ods os))) os'
+  | None => True
+  end.
+Proof.
+  intros cs. induction ods as [|d ods IH]; intros h os Hinv Hos; cbn [ev_odefs].
+  - cbn [fst snd]. split; [apply good_refl; auto|exact Hos].
+  - destruct (handles cs d) as [zs|]; [|cbn [fst snd]; split; [apply good_refl; auto|exact I]].
+    pose proof (proj1 (gstep_step 0 0 h (OLit zs 0) Hinv I)) as Gs.
+    assert (Hn : nobjs (step h (OLit zs 0)) = S (nobjs h)).
+    { unfold step, add_fresh, nobjs. cbn [h_objs]. rewrite app_length. cbn [length]. lia. }
+    destruct (IH (step h (OLit zs 0)) (os ++ [nobjs h])) as [G2 H2]; [apply Gs| |].
+    { rewrite Hn. apply Forall_app. split; [eapply Forall_impl; [|exact Hos]; intros a Ha; cbn beta in *; lia|].
+      constructor; [lia|constructor]. }
+    split; [eapply good_trans; eauto|exact H2].
 Qed.
 
 (* ------------------------------------------------------------------ one evaluation *)
 
 Definition xfunc_ok (h : heap) (mh : mheap) (F : xfunc) : Prop :=
-  Forall (fun a => a < nobjs h) (xf_cs F) /\ Forall (sok mh) (xf_ms F).
+  Forall (fun a => a < nobjs h) (xf_cs F) /\ Forall (fun a => a < nobjs h) (xf_os F) /\ Forall (sok mh) (xf_ms F).
 
 Lemma xfunc_ok_mono : forall h h' mh mh' F, good h h' -> mgood mh mh' -> xfunc_ok h mh F -> xfunc_ok h' mh' F.
 Proof.
-  intros h h' mh mh' F (_ & L & _) G [A B]. split.
+  intros h h' mh mh' F (_ & L & _) G (A & O & B). split; [|split].
   - eapply Forall_impl; [|exact A]. cbn. intros; lia.
+  - eapply Forall_impl; [|exact O]. cbn. intros; lia.
   - eapply Forall_impl; [|exact B]. intros s Hs. eapply sabs_sok. eapply sok_mono; eauto.
 Qed.
 
@@ -231,21 +289,21 @@ Lemma xeval_fn_spec : forall cp h0 mh0 F args j h mh, inv h0 -> mwf mh0 -> xfunc
   snd (xeval_fn cp h mh F args j) = xfunc_denotes h0 mh0 F args j /\
   good h (fst (fst (xeval_fn cp h mh F args j))) /\ mgood mh (snd (fst (xeval_fn cp h mh F args j))).
 Proof.
-  intros cp h0 mh0 F args j h mh Hinv Hw0 [Hc Hm] G GM. unfold xeval_fn, xfunc_denotes.
-  set (en := mkXE (xf_cs F) (xf_zs F) (xf_ms F) args).
+  intros cp h0 mh0 F args j h mh Hinv Hw0 (Hc & Hos & Hm) G GM. unfold xeval_fn, xfunc_denotes.
+  set (en := mkXE (xf_cs F) (xf_zs F) (xf_os F) (xf_ms F) args).
   set (cvm := map (miter (mh_arrs mh0)) (xf_ms F)).
   assert (HF : Forall2 (sabs mh) (xe_ms en) cvm).
   { subst en cvm. cbn [xe_ms]. clear -Hm GM. induction Hm as [|s l Hs Hm IH]; cbn [map]; constructor; auto.
     eapply sok_mono; eauto. }
   pose proof GM as (Hw & _).
-  destruct (ev_binds_abs (xf_binds F) en mh cvm Hw HF) as [G1 E1].
-  destruct (ev_binds en mh (xf_binds F)) as [mh1 r]. cbn [fst snd] in *. rewrite <- E1.
-  destruct r as [[cs zs]|]; [|cbn [fst snd]; split; [reflexivity|]; split; [apply good_refl; apply G|exact G1]].
+  destruct (ev_binds_abs cp h0 cvm (xf_binds F) en h mh Hinv G Hos Hw HF) as (G1 & GM1 & E1).
+  destruct (ev_binds cp en h mh (xf_binds F)) as [[h1 mh1] r]. cbn [fst snd] in *. rewrite <- E1.
+  destruct r as [[cs zs]|]; [|cbn [fst snd]; split; [reflexivity|]; split; [exact G1|exact GM1]].
   assert (Hf : func_ok h0 (mkF cs zs (xf_body F))).
-  { unfold func_ok. cbn [f_cs]. symmetry in E1. apply (pm_binds_scope _ _ _ _ _ _ E1). exact Hc. }
-  destruct (outcome_content_only_lemma cp h0 (mkF cs zs (xf_body F)) args j Hinv Hf h G) as [A B].
-  destruct (run_iso h (sc_eval cp (mkF cs zs (xf_body F)) args j)) as [h1 o]. cbn [fst snd] in *.
-  split; [exact A|]. split; [exact B|exact G1].
+  { unfold func_ok. cbn [f_cs]. symmetry in E1. apply (pm_binds_scope _ _ _ _ _ _ _ E1). exact Hc. }
+  destruct (outcome_content_only_lemma cp h0 (mkF cs zs (xf_body F)) args j Hinv Hf h1 (good_trans _ _ _ G G1)) as [A B].
+  destruct (run_iso h1 (sc_eval cp (mkF cs zs (xf_body F)) args j)) as [h2 o]. cbn [fst snd] in *.
+  split; [exact A|]. split; [eapply good_trans; eauto|exact GM1].
 Qed.
 
 (* ------------------------------------------------------------------ histories *)
@@ -268,12 +326,20 @@ Proof.
     destruct r as [F|].
     + unfold generated_ok in Hq. cbn [p_defs p_body] in Hq.
       destruct (sp_defs (xp_defs p) [] []) as [[cv zs]|]; [|contradiction]. destruct Hq as (_ & _ & Hq).
-      destruct (ev_mdefs_abs (xp_mdefs p) (mkXE (f_cs F) (f_zs F) [] []) (xg_mh g) [] Hw (Forall2_nil _)) as [GM Hms].
-      destruct (ev_mdefs (mkXE (f_cs F) (f_zs F) [] []) (xg_mh g) (xp_mdefs p)) as [mh1 rm]. cbn [fst snd] in *.
-      cbn [xg_heap xg_mh xg_funcs]. split; [exact G|]. split; [exact GM|]. split.
-      * split; [apply G|]. split; [apply GM|]. apply Forall_app. split; [apply Old; auto|].
-        destruct rm as [ms|]; [|constructor]. constructor; [|constructor]. split; cbn [xf_cs xf_ms]; [|exact Hms].
-        eapply forall2_func_ok; eauto.
+      destruct (ev_odefs_ok (f_cs F) (xp_odefs p) h1 [] (proj1 G) (Forall_nil _)) as [G2 Hos].
+      destruct (ev_odefs (f_cs F) h1 (xp_odefs p) []) as [h2 ro]. cbn [fst snd] in *.
+      assert (G12 : good (xg_heap g) h2) by (eapply good_trans; eauto).
+      destruct ro as [os|].
+      2:{ cbn [xg_heap xg_mh xg_funcs]. split; [exact G12|]. split; [apply mgood_refl; auto|]. split; [|auto].
+          split; [apply G12|]. split; [exact Hw|]. apply Old; [exact G12|apply mgood_refl; auto]. }
+      destruct (ev_mdefs_abs (xp_mdefs p) (mkXE (f_cs F) (f_zs F) os [] []) (xg_mh g) [] Hw (Forall2_nil _)) as [GM Hms].
+      destruct (ev_mdefs (mkXE (f_cs F) (f_zs F) os [] []) (xg_mh g) (xp_mdefs p)) as [mh1 rm]. cbn [fst snd] in *.
+      cbn [xg_heap xg_mh xg_funcs]. split; [exact G12|]. split; [exact GM|]. split.
+      * split; [apply G12|]. split; [apply GM|]. apply Forall_app. split; [apply Old; auto|].
+        destruct rm as [ms|]; [|constructor]. constructor; [|constructor].
+        split; [|split]; cbn [xf_cs xf_os xf_ms]; [|exact Hos|exact Hms].
+        pose proof (forall2_func_ok _ _ _ Hq) as Hc. destruct G2 as (_ & L2 & _).
+        eapply Forall_impl; [|exact Hc]. cbn. intros; lia.
       * intros k F' Hk. rewrite nth_error_app1; [exact Hk|]. apply nth_error_Some. congruence.
     + cbn [xg_heap xg_mh xg_funcs]. split; [exact G|]. split; [apply mgood_refl; auto|]. split; [|auto].
       split; [apply G|]. split; [exact Hw|]. apply Old; [exact G|apply mgood_refl; auto].
